@@ -783,6 +783,18 @@ func runC01(c *Ctx) {
 				if _, isMk := rootOf(a[0]).(*ssa.MakeSlice); isMk && isFieldLoad(a[1], "vnet.chunkUDP", "userData") {
 					ok2 = true
 				}
+				// the fresh slice is first stored as the clone's payload and filled through that field
+				if fr, isF := asFieldLoad(a[0]); isF && fr.SName == "vnet.chunkUDP" && fr.Field == "userData" && isFieldLoad(a[1], "vnet.chunkUDP", "userData") {
+					if _, fresh := rootOf(fr.Base).(*ssa.Alloc); fresh {
+						instrsOfU(cl, func(y ssa.Instruction) {
+							if st, ok := y.(*ssa.Store); ok && isFieldStore(st, "vnet.chunkUDP", "userData") {
+								if _, isMk := st.Val.(*ssa.MakeSlice); isMk && domU(y, in) {
+									ok2 = true
+								}
+							}
+						})
+					}
+				}
 			}
 			// or a library/append copy stored as the clone's payload
 			if st, ok := in.(*ssa.Store); ok && isFieldStore(st, "vnet.chunkUDP", "userData") {
